@@ -521,6 +521,32 @@ func ruleTypeSwitch(c *RC) *RuleResult {
 		}
 		return true
 	})
+	// read from the walk as well (the arm may call a method per kind, or a method of a list type): on the paths of
+	// AddPayload that know the kind, which field of the receiver is written
+	if len(add.Params) == 1 {
+		pn := "p:" + add.Params[0].Name()
+		for _, e := range c.exitsOf(add) {
+			kind := ""
+			for _, l := range e.TrailL {
+				if l.Pos && l.A.Op == "eq" && l.A.B != nil && strings.HasSuffix(l.A.B.S, "Type") && strings.Contains(l.A.A.S, ".Type("+pn+")") {
+					kind = l.A.B.S
+				}
+			}
+			if kind == "" || armField[kind] != "" {
+				continue
+			}
+			var locs []string
+			for loc, k := range e.Killed {
+				if k != 0 && strings.HasPrefix(loc, "recv.") {
+					locs = append(locs, strings.TrimPrefix(loc, "recv."))
+				}
+			}
+			sort.Strings(locs)
+			if len(locs) > 0 {
+				armField[kind] = strings.Join(locs, "|")
+			}
+		}
+	}
 	// kinds the library packs: from the recovery builder's tables (C09)
 	for _, k := range []string{"PrepareRequestType", "PrepareResponseType", "ChangeViewType", "PreCommitType", "CommitType"} {
 		r.Sites++
@@ -613,7 +639,7 @@ func ruleTypeSwitch(c *RC) *RuleResult {
 			bad = "rebuilds payloads of kind " + usedKind + " instead of " + kind
 		case bodyOf[kind] != "" && usedBody != bodyOf[kind]:
 			bad = "rebuilds the body as " + usedBody + " but the decoder uses " + bodyOf[kind] + " for " + kind
-		case !readsField[armField[kind]]:
+		case !readsAny(readsField, armField[kind]):
 			bad = "does not read " + armField[kind] + ", the list AddPayload fills for " + kind
 		}
 		// every field of the body type is set in the literal (or exempt)
@@ -1500,4 +1526,14 @@ func (c *RC) ctorDests(fn *FuncInfo, p *types.Var, depth int) (map[string]bool, 
 		return true
 	})
 	return dests, used
+}
+
+// readsAny: one of the |-separated fields is among those read.
+func readsAny(read map[string]bool, fields string) bool {
+	for _, f := range strings.Split(fields, "|") {
+		if read[f] {
+			return true
+		}
+	}
+	return false
 }
